@@ -38,9 +38,20 @@ def run_unit(desc):
     from . import interp as _interp
     _loader.ALL_FILES_READ.clear()
     _interp.LINES_EXECUTED.clear()
+    del _interp.PARTIAL_REFUTED[:]
+    _loader.MUTATED = False
     try:
         mod = importlib.import_module(f"rxvc.{desc['runner']}")
         rep = mod.run_unit(desc)
+        if rep.get("unsupported"):
+            # obligations refuted before the unit left the subset (finished paths the harness kept + the paths of the aborted exploration)
+            seen_ = set()
+            part = []
+            for r_ in [x for x in rep.get("results", []) if x.get("verdict") == "refuted"] + [x.as_dict() for x in _interp.PARTIAL_REFUTED]:
+                if r_["id"] not in seen_:
+                    seen_.add(r_["id"])
+                    part.append(r_)
+            rep["refuted_before_leaving_the_subset"] = part
     except Exception:
         rep = {"unit": desc.get("id", str(desc)), "kind": desc.get("runner"), "results": [], "functions": {},
                "unsupported": None, "crash": traceback.format_exc()[-2000:]}
@@ -222,6 +233,16 @@ class Check:
                     f = st["found"][0]
                     violations.append({"unit": unit, "oid": f"{unit}/bounded-standin", "replay": st.get("replay"),
                                        "detail": f, "concrete": True})
+                # a refuted obligation stays refuted: what failed on the real code before the unit left the subset is reported (nothing of
+                # this unit counts as proved)
+                for r in rep.get("refuted_before_leaving_the_subset", []):
+                    k = match_known(known, self.prop, unit, r["id"], r.get("path", []))
+                    if k is not None:
+                        known_seen.append({"unit": unit, "obligation": r["id"], "what": k.get("what", "")})
+                        continue
+                    obligations += 1
+                    r = dict(r, detail=(r.get("detail", "") + " [refuted before the unit left the verifier's subset: " + rep["unsupported"][:120] + "]"))
+                    violations.append({"unit": unit, "oid": r["id"], "result": r, "rep": rep})
                 continue
             for r in rep["results"]:
                 all_results.append(r)
